@@ -1,4 +1,5 @@
 import DaeVerif.C07.Model
+import DaeVerif.C07.ComposeModel
 import DaeVerif.Common.Proto
 /-!
 Line-protocol driver for C07.  Grammar (see harness/overlay/component/dns/c07_test.go and
@@ -138,6 +139,8 @@ structure St where
   respProg : Option Prog := none
   nUp : Nat := 0
   explain : Bool := false   -- coverage mode: print a classification of the op instead of the answer
+  reqBuilt : Option C11.Built := none    -- the REAL domain matcher (C11 model) built from the request program's AddSet calls
+  respBuilt : Option C11.Built := none
 
 /-! controller ops -/
 
@@ -231,6 +234,25 @@ def ansFn (tbl : List ((Nat × UpRef) × Option Resp)) : Upstreams := fun d u =>
   | some e => e.2
   | none => none
 
+/-- regex patterns are named `R<k>` on the op lines: number k -/
+def rxIdOf (s : String) : Nat := if hasPrefix s "R" then ((dropS s 1).toNat?).getD 0 else 0
+
+/-- `Build()` of the real domain matcher for a compiled program; the table is as large as the
+program (the composition theorems hold for every size ≥ that, `MaxMatchSetLen` in production). -/
+def buildReal (P : Prog) : Option C11.Built :=
+  match (C11.Matcher.replay P.ms.length (addCalls rxIdOf P)).build with
+  | .ok b => some b
+  | .error _ => none
+
+def envROf (env : Env) : EnvR := ⟨env.name.map Char.toNat, env.qtype, env.ips, env.«from», env.rx.map rxIdOf⟩
+
+def realStr : MatchResR → String
+  | .hit u => s!"hit:{u}"
+  | .noHit => "nohit"
+  | .emptyName => "emptyname"
+  | .buildError => "builderror"
+  | .panic => "panic"
+
 /-- coverage only: position of the first rule that holds -/
 def firstIdx (env : Env) (rs : List SrcRule) : String :=
   match rs.findIdx? (fun r => r.holds env) with
@@ -251,14 +273,14 @@ def handleLine (st : St) (line : String) : St × String :=
     match n.toNat?, parseOut .req fb, parseRules .req rules with
     | some n, some fb, some rs =>
       let P := compileRequest rs fb
-      ({ st with reqSrc := rs, reqFb := fb, reqProg := P, nUp := n },
+      ({ st with reqSrc := rs, reqFb := fb, reqProg := P, nUp := n, reqBuilt := P.bind buildReal },
         match P with | some P => dumpProg P | none => "builderr")
     | _, _, _ => (st, "bad-op")
   | ["resp", n, fb, rules] =>
     match n.toNat?, parseOut .resp fb, parseRules .resp rules with
     | some n, some fb, some rs =>
       let P := compile rs fb
-      ({ st with respSrc := rs, respFb := fb, respProg := P, nUp := n },
+      ({ st with respSrc := rs, respFb := fb, respProg := P, nUp := n, respBuilt := P.bind buildReal },
         match P with | some P => dumpProg P | none => "builderr")
     | _, _, _ => (st, "bad-op")
   | ["rq", name, qt, rx] =>
@@ -268,7 +290,15 @@ def handleLine (st : St) (line : String) : St × String :=
       let r := requestMatch P env
       let spec := firstMatchSrc env (splitRequestRules st.reqSrc) st.reqFb
       if st.explain then (st, "rq " ++ firstIdx env (splitRequestRules st.reqSrc)) else
-      (st, if r == .hit spec then matchResStr r else s!"MODEL-SPLIT scan={matchResStr r} spec={spec}")
+      -- the composed path: real packed-trie / automaton domain matcher instead of the `patMatch` definition
+      let real := match st.reqBuilt with
+        | some b => realStr (requestMatchBuilt b P (envROf env))
+        | none => "builderror"
+      let specDoc := firstMatchDoc rxIdOf (envROf env) (splitRequestRules st.reqSrc) st.reqFb
+      (st, if r != .hit spec then s!"MODEL-SPLIT scan={matchResStr r} spec={spec}"
+           else if real != matchResStr r || specDoc != spec then
+             s!"REAL-MATCHER-DIFFERS real={real} doc-spec={specDoc} oracle={matchResStr r}"
+           else matchResStr r)
     | _, _, _, _ => (st, "bad-op")
   | ["rs", name, qt, fr, ips, rx] =>
     match parseName name, qt.toNat?, parseUpRef fr, parseList "ips:" ips, parseList "rx:" rx, st.respProg with
@@ -279,8 +309,14 @@ def handleLine (st : St) (line : String) : St × String :=
         let r := responseMatch P env
         let spec := firstMatchSrc env st.respSrc st.respFb
         if st.explain then (st, "rs " ++ (if r == .emptyName then "emptyname" else firstIdx env st.respSrc)) else
-        (st, if r == .emptyName || r == .hit spec then matchResStr r
-             else s!"MODEL-SPLIT scan={matchResStr r} spec={spec}")
+        let real := match st.respBuilt with
+          | some b => realStr (responseMatchBuilt b P (envROf env))
+          | none => "builderror"
+        let specDoc := firstMatchDoc rxIdOf (envROf env) st.respSrc st.respFb
+        (st, if !(r == .emptyName || r == .hit spec) then s!"MODEL-SPLIT scan={matchResStr r} spec={spec}"
+             else if real != matchResStr r || (r != .emptyName && specDoc != spec) then
+               s!"REAL-MATCHER-DIFFERS real={real} doc-spec={specDoc} oracle={matchResStr r}"
+             else matchResStr r)
       | none => (st, "bad-op")
     | _, _, _, _, _, _ => (st, "bad-op")
   | "cfg" :: n :: rfb :: rrules :: sfb :: srules :: _ =>   -- further tokens (upstream URLs) are for the replay reader
